@@ -176,6 +176,15 @@ class Checker:
                       "AliasDefn": "DefineAlias"}.get(op, "CustomOp")
         if type(mn.operation).__name__ != expect_cls:
             self.V("region-shape", f"operation-class:{op}", {"got": type(mn.operation).__name__, "expected": expect_cls})
+        nd = self.doc["nodes"][self.rank[n.idx]]
+        if op == "Extension" and isinstance(mn.operation, model.CustomOp):
+            # faithful: the custom operation applied is the one the node names (extension-qualified)
+            self.ctx.checked("custom-op-symbol")
+            term = mn.operation.operation
+            want = f"{nd['extension']}.{nd['name']}"
+            got = term.symbol if isinstance(term, model.Apply) else repr(term)
+            if got != want:
+                self.V("custom-op-symbol", "other-operation", {"node": n.idx, "exported": got, "node_names": want})
         if op in ("DFG", "FuncDefn", "TailLoop", "DataflowBlock"):
             if len(mn.regions) != 1:
                 self.V("region-shape", f"region-count:{op}", {"got": len(mn.regions)})
